@@ -9,7 +9,8 @@
      * FakeData.__init__: obj_to_func_list's filter, the five-layer name table,
        FakeData._get_fake_data: lookup, NotImplemented test, recording of the result in
        local_vars under the underscore-free lower-case name,
-     * a row = a sequence of `fake:` calls sharing one local_vars dictionary.
+     * a row = a sequence of `fake:` calls; every template instantiation (top level, nested
+       object, friend) has a local_vars dictionary of its own (RuntimeContext.local_vars).
    Faker itself is NOT modelled: every value Faker returns (safe_domain_name(),
    ascii_safe_email(), hostname(), uuid4(), first_name(), last_name(), ...) is an element of
    an explicit log [flog] that the model consumes in call order; the two draws of the
@@ -318,20 +319,45 @@ Definition fake_step (tbl : list (string * prov)) (ni : list string) (this_year 
     Ok (v, mkSt ((canon q, v) :: s_lv s1) (s_flog s1) (s_draws s1))
   end.
 
-Fixpoint run_fields (tbl : list (string * prov)) (ni : list string) (this_year : Z)
-         (fields : list (string * bool)) (s : st) : result (list str) :=
+(* a sequence of `fake:` calls inside one context, returning the final state *)
+Fixpoint run_fakes (tbl : list (string * prov)) (ni : list string) (this_year : Z)
+         (fields : list (string * bool)) (s : st) : result (list str * st) :=
   match fields with
-  | [] => Ok []
+  | [] => Ok ([], s)
   | (q, m) :: rest =>
     do '(v, s1) <- fake_step tbl ni this_year q m s;
-    do vs <- run_fields tbl ni this_year rest s1;
+    do '(vs, s2) <- run_fakes tbl ni this_year rest s1;
+    Ok (v :: vs, s2)
+  end.
+
+(* What one top-level template does, in evaluation order.  Every template instantiation
+   (top level, nested object in a field, friend) runs in a RuntimeContext of its own, whose
+   local_vars start empty (OPush) and are dropped at the end (OPop: the enclosing context's
+   local_vars are current again).  All rows of one `count:` loop share their template's
+   context.  The Faker log and the random draws are global. *)
+Inductive op := OFake (q : string) (matching : bool) | OPush | OPop.
+
+Fixpoint run_ops (tbl : list (string * prov)) (ni : list string) (this_year : Z)
+         (ops : list op) (stack : list lvars) (s : st) : result (list str) :=
+  match ops with
+  | [] => Ok []
+  | OFake q m :: rest =>
+    do '(v, s1) <- fake_step tbl ni this_year q m s;
+    do vs <- run_ops tbl ni this_year rest stack s1;
     Ok (v :: vs)
+  | OPush :: rest =>
+    run_ops tbl ni this_year rest (s_lv s :: stack) (mkSt [] (s_flog s) (s_draws s))
+  | OPop :: rest =>
+    match stack with
+    | lv :: stack' => run_ops tbl ni this_year rest stack' (mkSt lv (s_flog s) (s_draws s))
+    | [] => Err BadOracle
+    end
   end.
 
 (* ------------------------------------------------------------------ correspondence cases *)
 
 Inductive rowcase :=
-  Row (fields : list (string * bool)) (flog : list (string * lit)) (draws : list (Z * Z))
+  Row (ops : list op) (flog : list (string * lit)) (draws : list (Z * Z))
       (expected : result (list lit)).
 
 Definition lits_eqb (a : list str) (b : list lit) : bool := list_eqb str_eqb a (map cp b).
@@ -341,9 +367,9 @@ Definition is_unsupported {X} (r : result X) : bool :=
 
 Definition check_row (tbl : list (string * prov)) (ni : list string) (this_year : Z)
            (r : rowcase) : bool :=
-  let '(Row fields flog draws expected) := r in
-  let got := run_fields tbl ni this_year fields
-                        (mkSt [] (map (fun p => (fst p, cp (snd p))) flog) draws) in
+  let '(Row ops flog draws expected) := r in
+  let got := run_ops tbl ni this_year ops []
+                     (mkSt [] (map (fun p => (fst p, cp (snd p))) flog) draws) in
   is_unsupported got ||
   match got, expected with
   | Ok vs, Ok ws => lits_eqb vs ws
